@@ -39,11 +39,14 @@ TENSOR_ATTRS = set(OPS.get("tensor_view_attributes", []))        # .mT / .T / .d
 TENSOR_RESULT_M = set(OPS.get("tensor_result_methods", []))      # library methods that return a plain tensor whatever the receiver
 NEW_OBJ_M = set(OPS.get("new_object_methods", []))               # maybe-view methods that always return a NEW tensor object
 INT_M = set(OPS.get("scalar_result_methods", []))                # size/dim/numel/item/...: results hold no storage whatever the receiver
+LIB_CLASSES = {}        # class name -> [(module, ClassDef)] for every class of the package (filled per run)
+READERS = {}            # class name -> (frozenset of attribute names the matrix-observing methods of its family may read, wildcard flag)
 LIB_METHODS = set()     # every method name defined by a class of the package (filled per run from the source)
 TYPES = json.load(open(os.path.join(HERE, "c13_types.json")))
 DUNDER_INPLACE = {"__iadd__", "__isub__", "__imul__", "__itruediv__", "__ifloordiv__", "__imod__", "__ipow__", "__iand__", "__ior__",
                   "__ixor__", "__ilshift__", "__irshift__", "__imatmul__", "__setitem__", "__delitem__", "__idiv__"}
 USED = {}               # (category, name) -> number of call sites classified that way (filled by Analyzer.call)
+CACHE_FILLS = []        # filled by emit(): sites permitted by the cache-fill rule
 LAST_SKIPPED = []       # filled by emit(): in-place-looking constructs without a site, each with the reason
 REBIND_EXEMPT_MODULES = {"linear_operator/settings.py", "linear_operator/utils/memoize.py", "linear_operator/utils/deprecation.py"}
 RETURNS_FRESH = {}      # bare name of a module-level library function -> True if its results never alias its parameters
@@ -130,6 +133,12 @@ class Analyzer(ast.NodeVisitor):
             f = e.func
             ops = [self.objalias(a) for a in e.args] + [self.objalias(k.value) for k in e.keywords]
             allo = (frozenset().union(*[x[0] for x in ops]) if ops else E, any(x[1] for x in ops))
+            if (isinstance(f, ast.Attribute) and f.attr == "__class__") or \
+                    (isinstance(f, ast.Name) and f.id not in self.env and f.id in LIB_CLASSES) or \
+                    (isinstance(f, ast.Call) and isinstance(f.func, ast.Name) and f.func.id == "type" and len(f.args) == 1):
+                # self.__class__(...), type(x)(...), LibraryClass(...): a constructor call yields a NEW object (no class of the package
+                # defines __new__); the STORAGE of its result still aliases the arguments (storage program, Analyzer.call)
+                return (E, False)
             if isinstance(f, ast.Attribute):
                 m = f.attr
                 if self.is_module(f.value):
@@ -982,6 +991,14 @@ def analyze_package(repo):
     RETURNS_FRESH.clear()
     USED.clear()
     LIB_METHODS.clear()
+    LIB_CLASSES.clear()
+    READERS.clear()
+    for _mod, _tree in trees:
+        for _n in ast.walk(_tree):
+            if isinstance(_n, ast.ClassDef):
+                LIB_CLASSES.setdefault(_n.name, []).append((_mod, _n))
+                if any(isinstance(_c, ast.FunctionDef) and _c.name == "__new__" for _c in _n.body):
+                    raise Untranslatable("%s: class %s defines __new__ (constructor calls may return an existing object)" % (_mod, _n.name))
     for _mod, _tree in trees:
         for _n in ast.walk(_tree):
             if isinstance(_n, ast.ClassDef):
@@ -1077,6 +1094,98 @@ def analyze_package(repo):
                     helpers[fn.qual] = (fn, mp)
                     changed = True
     return fns, helpers
+
+
+# ----------------------------------------------------------------------------------------
+# which attributes of `self` may the methods that OBSERVE the matrix / the representation read?
+
+MATRIX_METHODS = ["_matmul", "_t_matmul", "matmul", "rmatmul", "__matmul__", "__rmatmul__", "_size", "size", "shape", "dim", "ndimension", "numel",
+                  "batch_shape", "matrix_shape", "batch_dim", "dtype", "device", "is_square", "requires_grad", "_transpose_nonbatch", "transpose", "mT", "t",
+                  "to_dense", "_diagonal", "diagonal", "_approx_diagonal", "representation", "representation_tree", "_getitem", "_get_indices",
+                  "__getitem__", "_expand_batch", "expand", "_permute_batch", "permute", "_unsqueeze_batch", "unsqueeze", "squeeze", "clone", "detach",
+                  "to", "type", "double", "float", "half", "cpu", "cuda", "_args", "_kwargs", "_bilinear_derivative", "_mul_constant", "_mul_matrix",
+                  "__add__", "__mul__", "add_diagonal", "add_jitter", "evaluate_kernel", "numpy"]
+
+
+def _class_family(name):
+    """the classes of the package related to `name` by inheritance (ancestors and descendants, by bare class name)"""
+    bases = {c: {getattr(b, "id", getattr(b, "attr", None)) for (_m, n) in defs for b in n.bases} for c, defs in LIB_CLASSES.items()}
+    fam, todo = {name}, [name]
+    while todo:                       # ancestors
+        c = todo.pop()
+        for b in bases.get(c, ()):
+            if b in LIB_CLASSES and b not in fam:
+                fam.add(b)
+                todo.append(b)
+    todo = [name]
+    while todo:                       # descendants
+        c = todo.pop()
+        for d, bs in bases.items():
+            if c in bs and d not in fam:
+                fam.add(d)
+                todo.append(d)
+    return fam
+
+
+def matrix_readers(cls):
+    """(attribute names, wildcard): every `self.<a>` (a not a method / property of the family) that a matrix-observing method of the
+    class family of `cls` may load, transitively through `self.m(...)` / `super().m(...)` calls resolved in EVERY class of the family;
+    wildcard = a reader uses getattr(self, ..) / vars(self) / self.__dict__ (then nothing can be said)"""
+    if cls in READERS:
+        return READERS[cls]
+    fam = _class_family(cls)
+    methods = {}
+    for c in fam:
+        for (_m, n) in LIB_CLASSES.get(c, ()):
+            for ch in n.body:
+                if isinstance(ch, (ast.FunctionDef, ast.AsyncFunctionDef)):
+                    methods.setdefault(ch.name, []).append(ch)
+    attrs, wild = set(), False
+    seen, todo = set(), [m for m in MATRIX_METHODS if m in methods]
+    while todo:
+        m = todo.pop()
+        if m in seen:
+            continue
+        seen.add(m)
+        for fnode in methods.get(m, ()):
+            for n in ast.walk(fnode):
+                if isinstance(n, ast.Attribute) and isinstance(n.value, ast.Name) and n.value.id == "self":
+                    if n.attr == "__dict__":
+                        wild = True
+                    elif n.attr in methods:
+                        todo.append(n.attr)
+                    elif isinstance(n.ctx, ast.Load):
+                        attrs.add(n.attr)
+                elif isinstance(n, ast.Attribute) and isinstance(n.value, ast.Call) and isinstance(n.value.func, ast.Name) and n.value.func.id == "super":
+                    if n.attr in methods:
+                        todo.append(n.attr)
+                elif isinstance(n, ast.Call) and isinstance(n.func, ast.Name) and n.func.id in ("getattr", "vars", "hasattr") and n.args \
+                        and isinstance(n.args[0], ast.Name) and n.args[0].id == "self":
+                    if n.func.id == "vars" or len(n.args) < 2 or not isinstance(n.args[1], ast.Constant):
+                        wild = True
+                    elif n.args[1].value in methods:
+                        todo.append(n.args[1].value)
+                    else:
+                        attrs.add(n.args[1].value)
+    READERS[cls] = (frozenset(attrs), wild)
+    return READERS[cls]
+
+
+def cache_fill_rule(fn, why):
+    """`self.<a> = ...` outside a constructor is a permitted CACHE FILL iff a is private, the class is a class of the package, and no
+    matrix-observing method of its family may read a (then the rebinding cannot change the matrix the operator represents nor its
+    representation).  -> (attribute, sorted readers) or None"""
+    if not why.startswith("attr-rebind:") or fn.cls is None or fn.cls not in LIB_CLASSES:
+        return None
+    a = why[len("attr-rebind:"):]
+    if a.startswith("__") and not a.endswith("__"):
+        a_names = {a, "_%s%s" % (fn.cls, a)}       # name mangling of self.__x inside class C: _C__x
+    else:
+        a_names = {a}
+    rd, wild = matrix_readers(fn.cls)
+    if wild or not a.startswith("_") or (a_names & rd):
+        return None
+    return (a, sorted(rd))
 
 
 def closure(fn):
@@ -1276,10 +1385,11 @@ def emit(fns, helpers, allow):
       (Proofs.refute_check) over the full program; harness/c13.py reports every failing site.
     * allow-listed sites are left out and listed (each with a written justification in c13_allow.json)."""
     L = ["(* GENERATED by harness/own_ir.py from the linear_operator sources — do not edit *)",
-         "From Coq Require Import List Arith Bool String.", "Import ListNotations.", "Require Import C13.Own C13.Proofs.", ""]
+         "From Coq Require Import List Arith Bool String.", "Import ListNotations.", "Require Import C13.Own C13.Proofs C13.Slots.", ""]
     table = []
     names, refuted, summaries = [], [], []
     allowed_names = []
+    cache_fills = []
     name_fn = {}
     skipped = []
     for fn in fns:
@@ -1299,7 +1409,14 @@ def emit(fns, helpers, allow):
             for s in prog:
                 if s[0] != "inplace":
                     continue
-                a = allow_match(allow, fn, s, kind)
+                a = None
+                if kind == "object" and s[1] in mc_all:
+                    cf = cache_fill_rule(fn, s[3])
+                    if cf is not None:
+                        a = {"id": "rule:cache-fill", "assume": "receiver-slot", "rule": True}
+                        cache_fills.append((fn, s, cf))
+                if a is None:
+                    a = allow_match(allow, fn, s, kind)
                 if a is not None and s[1] not in mc_all:
                     a = None                      # the site passes anyway: the allow-list entry is not needed (and not used)
                 if a is not None and not conditional_program(fn, lets, [(s, a)])[2]:
@@ -1373,7 +1490,7 @@ def emit(fns, helpers, allow):
             table.append({"name": nm, "module": fn.module, "qual": fn.qual, "kind": kind, "sites": sites, "defs": defs,
                           "borrowed": borrowed_names, "first_line": fn.node.lineno,
                           "n_inplace": len(kept), "ok": not any(x["status"] == "failing" for x in sites),
-                          "allowed": sorted({x["allow_id"] for x in sites if x["status"] == "allowed"}),
+                          "allowed": sorted({x["allow_id"] for x in sites if x["status"] == "allowed" and x["allow_id"] != "rule:cache-fill"}),
                           "failing": [{"line": x["line"], "why": x["why"], "refutation": x.get("refutation")} for x in sites if x["status"] == "failing"]})
     # return summaries used at call sites
     by_name = {}
@@ -1414,6 +1531,23 @@ def emit(fns, helpers, allow):
     L.append("(* programs of module-level functions, autograd Functions, utilities, nested functions *)")
     L.append("Definition other_progs : list (list stmt * list nat) := [%s]." % pl(otn))
     L.append("Definition all_progs : list (list stmt * list nat) := operator_method_progs ++ other_progs.")
+    # side table of the cache-fill rule: (attribute rebound on self, attributes the matrix-observing methods of the class family may read)
+    fams = {}
+    for (fn_, s_, (a_, rd_)) in cache_fills:
+        fams.setdefault(tuple(rd_), "readers_%d" % len(fams))
+    for rd_, nm_ in fams.items():
+        L.append("Definition %s : list string := [%s]." % (nm_, "; ".join('"%s"%%string' % x for x in rd_)))
+    seen_cf, rows_cf = set(), []
+    for (fn_, s_, (a_, rd_)) in cache_fills:
+        k_ = (fn_.cls, a_)
+        if k_ in seen_cf:
+            continue
+        seen_cf.add(k_)
+        rows_cf.append('("%s"%%string, %s) (* %s :: %s line %d *)' % (a_, fams[tuple(rd_)], fn_.module.split("/")[-1], fn_.qual, s_[2]))
+    L.append("Definition cache_fill_sites : list (string * list string) := [%s]." % ("\n  " + ";\n  ".join(rows_cf) if rows_cf else ""))
+    L.append("Lemma all_cache_fills_unread : forallb (fun e => slot_unread (fst e) (snd e)) cache_fill_sites = true.")
+    L.append("Proof. vm_compute. reflexivity. Qed.")
+    CACHE_FILLS[:] = [{"module": fn_.module, "qual": fn_.qual, "line": s_[2], "attr": a_, "n_readers": len(rd_)} for (fn_, s_, (a_, rd_)) in cache_fills]
     L.append("Definition allowed_progs : list (list stmt * list nat) := [%s]." % pl(allowed_names))
     L.append("Lemma all_allowed_ok : forallb (fun p => own_check (mem (snd p)) (fst p)) allowed_progs = true.")
     L.append("Proof. vm_compute. reflexivity. Qed.")
